@@ -150,11 +150,6 @@ theorem rinv_applyOp {k : K} (h : RInv k) (op : KOp) : RInv (applyOp op k) := by
         have h' : RInv { k with latches := k.latches.set l (p, true) } := rinv_congr h rfl
         exact rinv_rejectP h' _ _
   | addReactions p cap f g => exact rinv_addReactions h p cap f g
-  | swap =>
-    simp only [applyOp, swap]
-    split
-    · exact rinv_congr h rfl
-    · exact h
   | popJob =>
     simp only [applyOp, popJob]
     split
